@@ -102,7 +102,8 @@ class _geom1d:
     bound_note = BOUND
 
     def configs():
-        return [{"m": 3, "kind": "gapped", "dtype": "int64"}, {"m": 2, "kind": "fixed", "dtype": "float64"}, {"m": 1, "kind": "numpy", "dtype": "int64"}]
+        return [{"m": 3, "kind": "gapped", "dtype": "int64"}, {"m": 2, "kind": "fixed", "dtype": "float64"}, {"m": 1, "kind": "numpy", "dtype": "int64"},
+                {"m": 2, "kind": "fixed", "dtype": "int16"}]
 
     def inputs(b):
         c = b.cfg
@@ -136,7 +137,11 @@ class _geom1d:
     def _(a, old, result):
         f = F(old.self)
         cum = elems(result["cumulative_frequencies"])
-        return And(*[cum[k] == sumr(f, 0, k + 1) for k in range(len(f))], cum[-1] == result["total"], result["total"] == total(f))
+        # the running sum of a narrow integer histogram must not be accumulated in the narrow content dtype (it would wrap before it
+        # reaches `total`): it has numpy's default accumulator type, the type `total` is computed in
+        wide = np.ones(1, dtype_of(attr(old.self, "_frequencies"))).cumsum().dtype
+        return And(*[cum[k] == sumr(f, 0, k + 1) for k in range(len(f))], cum[-1] == result["total"], result["total"] == total(f),
+                   dtype_of(result["cumulative_frequencies"]) == wide)
 
     @ensures("errors_are_roots_of_errors2_and_nothing_changes")
     def _(a, old, result):
